@@ -169,6 +169,38 @@ func genC01(c *Cfg, emit func([]string)) {
 			}
 		}
 	}
+	// the ACL's is_multisig flag disagrees with the key list (the bundled mock ACL never sets it):
+	// the required number of signatures must not depend on it
+	for _, kt := range kts {
+		for _, route := range routes {
+			for _, st := range [][]string{{"valid", "blank"}, {"blank", "valid"}, {"valid", "valid"}, {"valid", "junk"}} {
+				for _, n := range []int{0, 1, 2} {
+					add(build(route, kt, 2, st, strings.Replace(aclOK(kt, 2, n), ":100", ":100001", 1), false))
+				}
+			}
+			add(build(route, kt, 3, []string{"valid", "blank", "blank"}, strings.Replace(aclOK(kt, 3, 2), ":100", ":100001", 1), false))
+			add(build(route, kt, 3, []string{"valid", "valid", "blank"}, strings.Replace(aclOK(kt, 3, 2), ":100", ":100001", 1), false))
+			add(build(route, kt, 1, []string{"valid"}, strings.Replace(aclOK(kt, 1, 2), ":100", ":100002", 1), false))
+			add(build(route, kt, 1, []string{"blank"}, strings.Replace(aclOK(kt, 1, 2), ":100", ":100002", 1), false))
+		}
+	}
+	// a signature that was genuinely made, and accepted, for an earlier request of the same signer is
+	// presented again with a different request (other nonce): it is a signature over another message
+	for _, kt := range kts {
+		for _, route := range routes {
+			for _, route2 := range routes {
+				flush()
+				first := build(route, kt, 1, []string{"valid"}, aclOK(kt, 1, 0), false)
+				add(first)
+				second := build(route2, kt, 1, []string{"valid"}, aclOK(kt, 1, 0), false)
+				// keep the second request's bytes, but carry the first request's signature
+				second.sigs = []string{"{S0}=" + strings.SplitN(first.sigs[0], "=", 2)[1]}
+				add(second)
+				add(build(route2, kt, 1, []string{"valid"}, aclOK(kt, 1, 0), false)) // positive control
+			}
+		}
+	}
+	flush()
 	// duplicate key listed twice with two valid signatures: must count as one signer
 	for _, kt := range kts {
 		for _, route := range routes {
